@@ -131,6 +131,7 @@ class Contract:
         self.kind = kind              # contract | spec | lemma
         self.node = node
         self.vararg = None
+        self.vararg_ann = None
 
     def of(self, kind):
         return [c for c in self.clauses if c.kind == kind]
@@ -246,6 +247,8 @@ def parse_contract_file(path):
         c = Contract(target, node.name, params, props, clauses, path, 'lemma' if is_lemma else 'contract', node)
         if args.vararg:
             c.vararg = args.vararg.arg
+            if args.vararg.annotation is not None:
+                c.vararg_ann = ast.literal_eval(args.vararg.annotation)
         c.body = body_rest      # lemma bodies (proof scripts)
         contracts.append(c)
     return contracts, specs, consts
